@@ -289,6 +289,8 @@ def _check_ix(inp, T, case):
     assert ref is not None, "scenario not in general position"
     ext = max(np.ptp(np.r_[x1, x2]), np.ptp(np.r_[y1, y2]))
     args = (x1, y1, x2, y2)
+    if inp.get("int_dtype"):
+        args = tuple(np.array(inp[k], dtype=np.int64) for k in ("x1", "y1", "x2", "y2"))
     if inp.get("as_lists"):
         args = tuple(a.tolist() for a in args)
     try:
@@ -479,7 +481,7 @@ def _gen_ix_scenarios(rng, T, n_rep):
         p = np.cumsum(step, axis=0)
         return p[:, 0], p[:, 1]
 
-    kinds = ["walk-walk", "sine-line", "loop-loop", "zigzag-vertical", "segment-segment", "disjoint", "walk-short"]
+    kinds = ["walk-walk", "sine-line", "loop-loop", "zigzag-vertical", "segment-segment", "disjoint", "walk-short", "walk-walk-int"]
     for kind in kinds:
         got, tries = 0, 0
         while got < n_rep and tries < 500:
@@ -487,6 +489,10 @@ def _gen_ix_scenarios(rng, T, n_rep):
             if kind == "walk-walk":
                 x1, y1 = walk(int(rng.integers(3, 40)))
                 x2, y2 = walk(int(rng.integers(3, 40)))
+            elif kind == "walk-walk-int":
+                # whole-number vertices in integer-typed arrays (grid data): the crossings are still real numbers
+                x1, y1 = (np.round(v).astype(np.int64) for v in walk(int(rng.integers(3, 25)), box=40.0))
+                x2, y2 = (np.round(v).astype(np.int64) for v in walk(int(rng.integers(3, 25)), box=40.0))
             elif kind == "walk-short":
                 x1, y1 = walk(int(rng.integers(20, 60)))
                 x2, y2 = walk(2, box=40.0)
@@ -524,7 +530,8 @@ def _gen_ix_scenarios(rng, T, n_rep):
             if kind == "segment-segment" and (got % 2 == 0) != (len(ref) == 1):
                 continue
             got += 1
-            inp = {"type": "ix", "x1": x1.tolist(), "y1": y1.tolist(), "x2": x2.tolist(), "y2": y2.tolist(), "as_lists": bool(rng.integers(0, 2))}
+            inp = {"type": "ix", "x1": x1.tolist(), "y1": y1.tolist(), "x2": x2.tolist(), "y2": y2.tolist(), "as_lists": bool(rng.integers(0, 2)),
+                   "int_dtype": kind.endswith("-int")}
             scen.append((f"ix/{kind}", inp))
     return scen
 
